@@ -146,6 +146,9 @@ func cmdCheck(args []string) {
 		if *only != "" && hs.Name != *only {
 			continue
 		}
+		if *tier != "thorough" && hs.Quick == nil && hs.Thorough != nil {
+			continue // configuration registered for the thorough tier only
+		}
 		params := hs.Quick
 		timeout := hs.TimeoutQ
 		if *tier == "thorough" {
